@@ -55,6 +55,9 @@ EDITS = [
      "        key, sub_key = jrand.split(key)\n", "        sub_key, key = jrand.split(key)\n", ["C28"]),
     ("H14 marginal: the two halves of both key splits of Marginal.random_weighted swapped", "genjax/_src/inference/sp.py",
      "        key, sub_key = jax.random.split(key)\n", "        sub_key, key = jax.random.split(key)\n", ["C25"]),
+    ("H15 adev primitives: the two halves of every `key, sub_key = split(key)` swapped (REINFORCE, the reparameterised primitives)",
+     "genjax/_src/adev/primitives.py",
+     "        key, sub_key = jax.random.split(key)\n", "        sub_key, key = jax.random.split(key)\n", ["C29", "C30"]),
     ("H10 distribution.edit_regenerate: new value computed into differently named locals", "genjax/_src/generative_functions/distributions/distribution.py",
      "            w, new_v = self.random_weighted(key, *primals)\n            incremental_w = w - trace.get_score()\n            old_v = trace.get_retval()\n            new_trace = DistributionTrace(self, primals, new_v, w)",
      "            old_v = trace.get_retval()\n            fresh_score, fresh_value = self.random_weighted(key, *primals)\n            new_v, w = fresh_value, fresh_score\n            new_trace = DistributionTrace(self, primals, fresh_value, fresh_score)\n            incremental_w = fresh_score - trace.get_score()",
@@ -74,7 +77,7 @@ def main():
         shutil.copytree("/repo/src", D + "/src")
         p = f"{D}/src/{rel}"
         s = open(p).read()
-        if s.count(a) != 1 and not (name.startswith("H11") and s.count(a) == 5) and not (name.startswith(("H12", "H14")) and s.count(a) >= 2):
+        if s.count(a) != 1 and not (name.startswith("H11") and s.count(a) == 5) and not (name.startswith(("H12", "H14", "H15")) and s.count(a) >= 2):
             # (H11: every handler class; H12: every split of the module)
             print(name, ":: PATTERN NOT FOUND (the repository changed: adapt the edit)", s.count(a))
             continue
